@@ -13,6 +13,7 @@ Arguments RCrash {A}.
 Definition ERR_INVALID_IDX : Z := 1.     (* ptttype.ErrInvalidIdx *)
 Definition ERR_SEEK : Z := 2.            (* lseek to a negative offset: EINVAL *)
 Definition ERR_INVALID_UID : Z := 3.     (* cache.ErrInvalidUID *)
+Definition ERR_WRITE_REFUSED : Z := 4.   (* write(2) refused by the OS: EFBIG / ENOSPC (the harness uses RLIMIT_FSIZE = 0) *)
 
 (* ------------------------------------------------------------------ cmsys *)
 
@@ -49,6 +50,21 @@ Definition get_records (sz : nat) (start n : Z) (desc : bool) (f : list Z) : rre
   if start <? 1 then RErr ERR_INVALID_IDX                       (* !startIdx.IsValid() *)
   else if n <? 0 then RCrash                                    (* make([]T, 0, n) *)
   else ROk (get_records_loop sz f (Z.to_nat n) start (num_records sz f) desc).
+
+(* the same loop without the file: the indices (Aid) GetRecords returns on a file of maxIdx records. This is what
+   the harness runs for files too large to be carried as byte lists (tens of thousands of records);
+   Proofs/C05 get_records_by_index ties it to get_records for every file. *)
+Fixpoint get_records_idx_loop (fuel : nat) (idx maxIdx : Z) (desc : bool) : list Z :=
+  match fuel with
+  | O => []
+  | S fuel' =>
+      if (idx =? 0) || (maxIdx <? idx) then []
+      else idx :: get_records_idx_loop fuel' (if desc then idx - 1 else idx + 1) maxIdx desc
+  end.
+Definition get_records_idx (start n : Z) (desc : bool) (cnt : Z) : rres (list Z) :=
+  if start <? 1 then RErr ERR_INVALID_IDX
+  else if n <? 0 then RCrash
+  else ROk (get_records_idx_loop (Z.to_nat n) start cnt desc).
 
 (* cmbbs.PasswdUpdate(uid, user): seek USEREC_RAW_SZ*(uid-1), write the record *)
 Definition passwd_update (sz : nat) (max_users uid : Z) (rec f : list Z) : rres (list Z) :=
@@ -159,6 +175,63 @@ Definition addressed (sz : nat) (o : op) (f : list Z) : option nat :=
 Fixpoint run (sz : nat) (ops : list op) (f : list Z) : list Z :=
   match ops with [] => f | o :: r => run sz r (step sz o f) end.
 
+(* histories in ONE process during some operations of which the OS refuses every write(2) to a regular file
+   (EFBIG, ENOSPC, ...): such an operation returns an error (its own refusal if it has one - stale pair, negative
+   offset - because then it never reaches the write; otherwise the OS error), the file is left as it was, and no
+   later operation is affected - the code keeps no state between two record operations. *)
+Inductive hop : Type :=
+| HDo (o : op)             (* o completes *)
+| HRefused (o : op).       (* o is run while the OS refuses writes (on the observed file or on a copy of it) *)
+
+(* what the caller of one operation sees: (status, index / error code) *)
+Definition res_code {A} (r : rres A) : Z * Z :=
+  match r with ROk _ => (ST_OK, 0) | RErr e => (ST_ERR, e) | RCrash => (ST_CRASH, 0) end.
+Definition op_result (sz : nat) (o : op) (f : list Z) : Z * Z :=
+  match o with
+  | OAppend rec => (ST_OK, fst (append_record sz rec f))
+  | OSubst idx rec => res_code (substitute_record sz idx rec f)
+  | ODelete idx tag => res_code (delete_record sz idx tag f)
+  | OModify idx name a => res_code (modify_dir_lite idx name a f)
+  | ORead start n desc => res_code (get_records sz start n desc f)
+  end.
+
+Definition refused_result (sz : nat) (o : op) (f : list Z) : Z * Z :=
+  match o with
+  | ORead _ _ _ => op_result sz o f                      (* nothing to write *)
+  | _ => let r := op_result sz o f in if fst r =? ST_OK then (ST_ERR, ERR_WRITE_REFUSED) else r
+  end.
+
+Definition hstep (sz : nat) (h : hop) (f : list Z) : (Z * Z) * list Z :=
+  match h with
+  | HDo o => (op_result sz o f, step sz o f)
+  | HRefused o => (refused_result sz o f, f)
+  end.
+
+(* per step: what the caller saw and the whole file afterwards *)
+Fixpoint htrace (sz : nat) (hs : list hop) (f : list Z) : list ((Z * Z) * list Z) :=
+  match hs with
+  | [] => []
+  | h :: r => let x := hstep sz h f in x :: htrace sz r (snd x)
+  end.
+Fixpoint hfinal (sz : nat) (hs : list hop) (f : list Z) : list Z :=
+  match hs with [] => f | h :: r => hfinal sz r (snd (hstep sz h f)) end.
+
+(* the history with the refused operations deleted, and its trace *)
+Fixpoint completed (hs : list hop) : list op :=
+  match hs with [] => [] | HDo o :: r => o :: completed r | HRefused _ :: r => completed r end.
+Fixpoint trace (sz : nat) (ops : list op) (f : list Z) : list ((Z * Z) * list Z) :=
+  match ops with
+  | [] => []
+  | o :: r => (op_result sz o f, step sz o f) :: trace sz r (step sz o f)
+  end.
+(* the entries of a mixed trace that belong to the operations on the observed file *)
+Fixpoint do_entries {A} (hs : list hop) (t : list A) : list A :=
+  match hs, t with
+  | HDo _ :: r, x :: t' => x :: do_entries r t'
+  | HRefused _ :: r, _ :: t' => do_entries r t'
+  | _, _ => []
+  end.
+
 (* ------------------------------------------------------------------ wire *)
 Definition wire_r (r : rres (list Z)) : list Z :=
   match r with ROk f => ST_OK :: f | RErr e => [ST_ERR; e] | RCrash => [ST_CRASH] end.
@@ -168,6 +241,35 @@ Definition opt_bytes (flag : Z) (l : list Z) : option (list Z) := if flag =? 0 t
 Fixpoint wire_records (l : list (Z * list Z)) : list Z :=
   match l with [] => [] | (i, r) :: rest => i :: r ++ wire_records rest end.
 
+Definition no_edit (mtime recommend en dis : Z) : modify_args :=
+  {| m_mtime := mtime; m_recommend := recommend; m_enable := en; m_disable := dis;
+     m_title := None; m_owner := None; m_date := None; m_multi := None |}.
+
+(* a history on the wire: per operation a header [kind refused idx mtime recommend enable disable] and a data group
+   (kind 1 append: record; 2 substitute idx: record; 3 delete idx: tag; 4 modify idx (1-based): name) *)
+Fixpoint parse_hops (l : list (list Z)) : option (list hop) :=
+  match l with
+  | [] => Some []
+  | hdr :: data :: rest =>
+      match hdr with
+      | [kind; refused; idx; mtime; recommend; en; dis] =>
+          let o := if kind =? 1 then Some (OAppend data)
+                   else if kind =? 2 then Some (OSubst idx data)
+                   else if kind =? 3 then Some (ODelete idx data)
+                   else if kind =? 4 then Some (OModify idx data (no_edit mtime recommend en dis))
+                   else None in
+          match o, parse_hops rest with
+          | Some o, Some hs => Some ((if refused =? 0 then HDo o else HRefused o) :: hs)
+          | _, _ => None
+          end
+      | _ => None
+      end
+  | _ => None
+  end.
+
+Fixpoint wire_htrace (t : list ((Z * Z) * list Z)) : list Z :=
+  match t with [] => [] | ((st, code), f) :: r => st :: code :: lenZ f :: f ++ wire_htrace r end.
+
 (* op 1 append [sz] rec f          -> 0 idx f'
    op 2 substitute [sz idx] rec f  -> 0 f' | 3 code
    op 3 delete [sz idx] tag f      -> 0 f' | 3 code
@@ -175,7 +277,9 @@ Fixpoint wire_records (l : list (Z * list Z)) : list Z :=
    op 5 get_records [start n desc] f -> 0 k (idx rec)* | 3 1 | 1
    op 6 num_records [sz] f         -> 0 count
    op 7 passwd_update [sz max_users uid] rec f
-   op 8 crash_append [sz k] rec f  -> 0 f' *)
+   op 8 crash_append [sz k] rec f  -> 0 f'
+   op 12 history [sz] f (hdr data)* -> 0 (status code |f'| f')*   one process, refused writes interleaved
+   op 13 window indices [cnt start n desc] [seed] -> 0 k idx* | 3 1 | 1   GetRecords on a generated file of cnt records *)
 Definition run_case (args : list (list Z)) : list Z :=
   match args with
   | [[1]; [sz]; rec; f] => let r := append_record (Z.to_nat sz) rec f in ST_OK :: fst r :: snd r
@@ -195,5 +299,16 @@ Definition run_case (args : list (list Z)) : list Z :=
   | [[6]; [sz]; f] => [ST_OK; num_records (Z.to_nat sz) f]
   | [[7]; [sz; mx; uid]; rec; f] => wire_r (passwd_update (Z.to_nat sz) mx uid rec f)
   | [[8]; [sz; k]; rec; f] => ST_OK :: crash_append (Z.to_nat sz) rec (Z.to_nat k) f
+  | [12] :: [sz] :: f :: rest =>
+      match parse_hops rest with
+      | Some hs => ST_OK :: wire_htrace (htrace (Z.to_nat sz) hs f)
+      | None => [ST_BADCASE]
+      end
+  | [[13]; [cnt; start; n; desc]; [_]] =>
+      match get_records_idx start n (negb (desc =? 0)) cnt with
+      | ROk l => ST_OK :: lenZ l :: l
+      | RErr e => [ST_ERR; e]
+      | RCrash => [ST_CRASH]
+      end
   | _ => [ST_BADCASE]
   end.
